@@ -302,6 +302,25 @@ func runFrameCase(c *FrameCase) *FrameResult {
 	} else {
 		for i, p := range c.Ps {
 			payload := framePayload(rnd, p)
+			if cf.Kind == "delim" && cf.DL > 1 && p > 0 && rnd.Intn(2) == 0 {
+				// admitted payloads may contain proper prefixes of the delimiter, also at their very end
+				k := 1 + rnd.Intn(cf.DL-1)
+				if k > p {
+					k = p
+				}
+				for j := 0; j < k; j++ {
+					payload[p-1-j] = 0
+				}
+				for j := 0; j+cf.DL < p-k; j += 1 + rnd.Intn(40) {
+					payload[j] = 0
+					if payload[j+1] == 1 {
+						payload[j+1] = 2
+					}
+				}
+				if p > k && payload[p-k-1] == 0 && cf.DL == 2 {
+					// fine: a longer run of prefix bytes
+				}
+			}
 			var out []byte
 			var encErr interface{}
 			if cf.Kind == "lf" && !cf.Real {
@@ -579,6 +598,46 @@ func runFrameFuzz(c *FrameCase, res *FrameResult, fail func(prop, key, msg strin
 				data[i] = byte(rnd.Intn(3))
 			}
 		}
+		if cf.Kind == "varint" && rnd.Intn(3) == 0 {
+			// valid 9/10-byte varints around 2^63 and 2^64, and over-long ones
+			heads := [][]byte{
+				{0xff, 0xff, 0xff, 0xff, 0xff, 0xff, 0xff, 0xff, 0xff, 0x01},
+				{0x80, 0x80, 0x80, 0x80, 0x80, 0x80, 0x80, 0x80, 0x80, 0x01},
+				{0x85, 0x80, 0x80, 0x80, 0x80, 0x80, 0x80, 0x80, 0x80, 0x01},
+				{0xff, 0xff, 0xff, 0xff, 0xff, 0xff, 0xff, 0xff, 0x7f},
+				{0xff, 0xff, 0xff, 0xff, 0xff, 0xff, 0xff, 0xff, 0xff, 0x02},
+				{0x80, 0x80, 0x80, 0x80, 0x80, 0x80, 0x80, 0x80, 0x80, 0x80, 0x01},
+				{0xff, 0xff, 0xff, 0xff, 0x0f}, {0x80, 0x80, 0x80, 0x80, 0x10},
+			}
+			data = append(append([]byte(nil), heads[rnd.Intn(len(heads))]...), data...)
+		}
+		// reference reading of the first header: a frame announced beyond the maximum must be refused
+		mustRefuse := false
+		switch cf.Kind {
+		case "varint":
+			if v, n := binary.Uvarint(data); n > 0 && v > uint64(cf.Max) {
+				mustRefuse = true
+			} else if n < 0 {
+				mustRefuse = true
+			}
+		case "lf":
+			if len(data) >= cf.O+cf.W && cf.W <= 4 {
+				fb := data[cf.O : cf.O+cf.W]
+				var v uint64
+				for _, b := range fb { // big endian only: both orders are used by the fuzz loop, so only all-ones fields are judged
+					v = v<<8 | uint64(b)
+				}
+				all := true
+				for _, b := range fb {
+					if b != 0xff {
+						all = false
+					}
+				}
+				if all && int64(v)+int64(cf.A)+int64(cf.O+cf.W) > int64(cf.Max) {
+					mustRefuse = true
+				}
+			}
+		}
 		src := &fragReader{data: data, mode: []string{"one", "rand", "whole"}[rnd.Intn(3)], rnd: rnd}
 		for inv := 0; inv < 50; inv++ {
 			before := src.pos
@@ -608,6 +667,9 @@ func runFrameFuzz(c *FrameCase, res *FrameResult, fail func(prop, key, msg strin
 			}
 			if got && len(delivered) > limit {
 				fail("C08", "oversized/"+cf.Kind, fmt.Sprintf("%s delivered %d bytes, the configured maximum is %d", cf.Kind, len(delivered), limit), it)
+			}
+			if got && inv == 0 && mustRefuse {
+				fail("C08", "oversized-accepted/"+cf.Kind, fmt.Sprintf("%s: the first header (% x) announces a frame beyond the maximum %d (or is malformed) but a %d-byte message was delivered instead of an exception", cf.Kind, data[:minInt(len(data), 11)], cf.Max, len(delivered)), it)
 			}
 			if src.pos == before {
 				if got && src.pos >= len(data) {
